@@ -158,8 +158,10 @@ def run(ctx: Context) -> None:
                 if isinstance(names, ast.ListComp) and len(names.generators) == 1:
                     g = names.generators[0]
                     it = flow.resolve(g.iter)
+                    # (Dataset.items() iterates the data variables: `dataset.data_vars.items()` is the same loop)
                     ok_it = (isinstance(it, ast.Call) and isinstance(it.func, ast.Attribute) and it.func.attr == 'items'
-                             and flow.canon(it.func.value) == ds_c)
+                             and (flow.canon(it.func.value) == ds_c
+                                  or (isinstance(it.func.value, ast.Attribute) and it.func.value.attr == 'data_vars' and flow.canon(it.func.value.value) == ds_c)))
                     ok_elt = (isinstance(g.target, ast.Tuple) and isinstance(names.elt, ast.Name)
                               and isinstance(g.target.elts[0], ast.Name) and names.elt.id == g.target.elts[0].id)
                     ok_if = False
